@@ -69,6 +69,13 @@ func vcRelevant(o *Obligation, unitProps []string, prop string) bool {
 	}
 	ps := o.Props
 	if len(ps) == 0 {
+		// C20's run executes every unit and assumes its invariants, preconditions and callee postconditions when it
+		// proves the safety obligations. The clauses that carry no property tag are the structural ones (index ranges,
+		// lengths, nil-ness): they are obligations of C20's run in every unit, also where the unit's props line does not
+		// name C20 - otherwise a bounds proof could rest on an invariant nobody proved in this run (seeded C20-5).
+		if prop == "C20" {
+			return true
+		}
 		ps = unitProps
 	}
 	return hasProp(ps, prop)
